@@ -18,11 +18,15 @@ Fixpoint list_eqb {A} (eq : A -> A -> bool) (a b : list A) : bool :=
   end.
 Definition optZ_eqb (a b : option Z) : bool :=
   match a, b with Some x, Some y => x =? y | None, None => true | _, _ => false end.
+(* list status: an unread entry (None) matches anything *)
+Definition ob_eqb (a b : option bool) : bool :=
+  match a, b with Some x, Some y => Bool.eqb x y | _, _ => true end.
 Definition obs_eqb (a b : obs) : bool :=
   (o_supply a =? o_supply b) && list_eqb Z.eqb (o_bal a) (o_bal b)
   && list_eqb (list_eqb Z.eqb) (o_alw a) (o_alw b)
-  && Bool.eqb (o_paused a) (o_paused b) && list_eqb Bool.eqb (o_list a) (o_list b)
-  && optZ_eqb (o_cap a) (o_cap b) && Bool.eqb (o_mig a) (o_mig b) && optZ_eqb (o_data a) (o_data b).
+  && Bool.eqb (o_paused a) (o_paused b) && list_eqb ob_eqb (o_list a) (o_list b)
+  && optZ_eqb (o_cap a) (o_cap b) && Bool.eqb (o_mig a) (o_mig b) && optZ_eqb (o_data a) (o_data b)
+  && Bool.eqb (o_trap a) (o_trap b).
 
 (* ------------------------------------------------------------------ *)
 (* diff: replay through the model                                      *)
@@ -53,7 +57,7 @@ Definition diff (t : trace) : N :=
 (* getters over an observation *)
 Definition gb (p : obs) (a : addr) : Z := nth (N.to_nat a) (o_bal p) 0.
 Definition ga (p : obs) (o sp : addr) : Z := nth (N.to_nat sp) (nth (N.to_nat o) (o_alw p) []) 0.
-Definition gl (p : obs) (a : addr) : bool := nth (N.to_nat a) (o_list p) false.
+Definition gl (p : obs) (a : addr) : option bool := nth (N.to_nat a) (o_list p) None.
 Definition view_obs (p : obs) : view := mkView (o_supply p) (gb p) (ga p) (o_cap p) (o_data p).
 
 (* --- the clauses of the property text, one by one ---------------------------------- *)
@@ -83,8 +87,12 @@ Definition m_block (c : cfg) (h : hist) (o : op) (ok : bool) : bool :=
    operations says: changes are immediate, idempotent, and nothing else moves a gate *)
 Definition m_getters (c : cfg) (h' : hist) (q : obs) : bool :=
   Bool.eqb (o_paused q) (h_paused h')
-  && forallb (fun x => Bool.eqb (gl q x) (h_listed h' x)) (universe c)
-  && Bool.eqb (o_mig q) (h_armed h').
+  && forallb (fun x => match gl q x with
+                        | Some b => Bool.eqb b (h_listed h' x)
+                        | None => true                      (* not read after this call *)
+                        end) (universe c)
+  && Bool.eqb (o_mig q) (h_armed h')
+  && negb (o_trap q).                                       (* no getter may trap *)
 
 (* a cap-checked mint never lifts the supply above the cap; overflow => failure *)
 Definition m_cap (c : cfg) (p : obs) (o : op) (ok : bool) (q : obs) : bool :=
